@@ -127,7 +127,3 @@ func realDecode(t *rm.Type, w []byte) (v *rm.Value, consumed int, err error, pan
 	}
 	return
 }
-
-func valueReplay(t *rm.Type, c string, base string) map[string]any {
-	return map[string]any{"type": t.QName(), "base": base, "deviations": c}
-}
